@@ -10,6 +10,7 @@ from . import core, executor, libev
 from .core import (SimLock, SimRLock, SimCondition, SimEvent, SimThread, SimTime, SimQueueModule)
 
 _static_done = [False]
+ALL_CONNS = []           # per run: every Connection object created (observation only)
 POOL_CONN_KNOBS = {}     # per run: attribute -> value set on pooled (non-control) connections
 M = {}          # short name -> driver module
 SIMTIME = SimTime()
@@ -87,6 +88,7 @@ def install_static():
             # capacity knobs for pooled connections only (instance attributes read by the real __init__)
             for name, val in POOL_CONN_KNOBS.items():
                 setattr(self, name, val)
+        ALL_CONNS.append(self)
         orig_init(self, *a, **k)
     cconn.Connection.__init__ = _conn_init
     cconn.Connection.__hash__ = lambda self: self.__dict__.get('_sim_serial', 0)
@@ -115,6 +117,7 @@ def install_run(sim, net):
     lr.LibevConnection._socket_impl = net.module()
     M['cconn'].Connection._sim_serial_counter[0] = 0
     POOL_CONN_KNOBS.clear()
+    del ALL_CONNS[:]
     executor.SimFuture._serial[0] = 0
     return M
 
